@@ -29,7 +29,11 @@ def gen_cases(ctx, n):
                     seen += 1
                     if seen > 9:
                         ops[j] = 'O'
+        if r.random() < 0.3:
+            c['opt'] = 'per_layer'       # DPPerLayerOptimizer: the scheduled scalar is the norm of the per-layer bounds
         cases.append(c)
+    for kind in ('exp', 'step'):
+        cases.append({'family': 'clip', 'kind': kind, 'init': 2.0, 'gamma': 0.5, 'step_size': 1, 'lam': 0, 'ops': ['O', 'S', 'O', 'S', 'S', 'O'], 'opt': 'per_layer'})
     # a grad-clip / noise scheduler stepping BETWEEN the physical batches of one logical batch (virtual steps)
     for kind in ('exp', 'step', 'lambda'):
         for fam in ('clip', 'noise'):
